@@ -233,19 +233,42 @@ func (c *Ctx) stringWriter(info *types.Info, rt *escTable) {
 	// reader is held to by LEX-ESCAPES / LEX-RAWBYTES
 	fn := c.method("postscript", "String", "PS")
 	st := c.aInit("postscript")
-	var diffs []string
-	n := 0
+	diffs, n := stringWriterCells("String.PS", func(in string) (string, string) {
+		ev := st.newEval()
+		ret := ev.runFunc(fn, []sv{{k: svString, s: in}})
+		if len(ret) != 1 || ret[0].k != svString {
+			if ev.why == "" {
+				ev.why = "no string result"
+			}
+			return "", ev.why
+		}
+		return ret[0].s, ""
+	})
+	c.check(len(diffs) == 0, "LEX-WRITER", fname, "every byte is written in a form the string reader maps back to it (alone, in balanced parentheses, next to an unbalanced one)", fn.Pos(), fmt.Sprintf("%d strings evaluated and read back by the PLRM's rules", n),
+		"String.PS ⊄ ReadString⁻¹: "+joinMax(diffs, 4))
+	// balanced parentheses are written raw (the writer does not escape more than it must)
+	{
+		ev := st.newEval()
+		ret := ev.runFunc(fn, []sv{{k: svString, s: "a(b)c"}})
+		c.check(len(ret) == 1 && ret[0].s == "(a(b)c)", "LEX-WRITER", fname, "balance scan counts parentheses as the reader nests them", fn.Pos(), "a(b)c → (a(b)c)", fmt.Sprintf("String.PS writes a(b)c as %v", ret))
+	}
+}
+
+// stringWriterCells: a function that writes a string as a PostScript literal string is evaluated
+// (by write, on the SSA form) for every byte in five contexts — alone, inside balanced
+// parentheses, after an unbalanced closing parenthesis, before an unbalanced opening one, before
+// a digit (where an octal escape would go on) — and the text it produces is read back by the
+// PLRM's rules for literal strings; the differences are returned.
+func stringWriterCells(what string, write func(in string) (out, why string)) (diffs []string, n int) {
 	for b := 0; b < 256; b++ {
 		one := string([]byte{byte(b)})
 		for _, in := range []string{one, "(" + one + ")", ")" + one, one + "(", one + "7"} {
 			n++
-			ev := st.newEval()
-			ret := ev.runFunc(fn, []sv{{k: svString, s: in}})
-			if len(ret) != 1 || ret[0].k != svString {
-				diffs = append(diffs, fmt.Sprintf("String.PS could not be evaluated for %q (%s)", in, ev.why))
+			out, why := write(in)
+			if why != "" {
+				diffs = append(diffs, fmt.Sprintf("%s could not be evaluated for %q (%s)", what, in, why))
 				continue
 			}
-			out := ret[0].s
 			back, used, ok := plrmString([]byte(out + "Q"))
 			switch {
 			case !ok:
@@ -257,12 +280,5 @@ func (c *Ctx) stringWriter(info *types.Info, rt *escTable) {
 			}
 		}
 	}
-	c.check(len(diffs) == 0, "LEX-WRITER", fname, "every byte is written in a form the string reader maps back to it (alone, in balanced parentheses, next to an unbalanced one)", fn.Pos(), fmt.Sprintf("%d strings evaluated and read back by the PLRM's rules", n),
-		"String.PS ⊄ ReadString⁻¹: "+joinMax(diffs, 4))
-	// balanced parentheses are written raw (the writer does not escape more than it must)
-	{
-		ev := st.newEval()
-		ret := ev.runFunc(fn, []sv{{k: svString, s: "a(b)c"}})
-		c.check(len(ret) == 1 && ret[0].s == "(a(b)c)", "LEX-WRITER", fname, "balance scan counts parentheses as the reader nests them", fn.Pos(), "a(b)c → (a(b)c)", fmt.Sprintf("String.PS writes a(b)c as %v", ret))
-	}
+	return diffs, n
 }
